@@ -47,6 +47,9 @@ type Outcome struct {
 	// Tolerated lists known-finding ids the check function itself recognised and
 	// stepped around while it kept checking the rest of the case.
 	Tolerated []string
+	// ExtraEvals: further executions against the implementation this case stands for
+	// (e.g. the crash states enumerated for one traced history)
+	ExtraEvals int
 }
 
 func (o *Outcome) class(format string, a ...any) {
@@ -105,7 +108,7 @@ func (s *statsT) record(sub string, c any, o Outcome) {
 		s.Classes["discard:"+o.Discard]++
 		return
 	}
-	s.Evals++
+	s.Evals += 1 + int64(o.ExtraEvals)
 	for _, c := range o.Classes {
 		s.Classes[c]++
 	}
